@@ -10,6 +10,7 @@ import (
 	"encoding/json"
 	"fmt"
 	"os"
+	"sort"
 	"strings"
 	"sync"
 	"time"
@@ -49,6 +50,97 @@ func compileDump(src, mode string) (out string) {
 	var b strings.Builder
 	dumpCode(code, &b)
 	return b.String()
+}
+
+// errDump renders everything an embedder can read from a failed compilation: class, message and the
+// location attributes stamped on the exception
+func errDump(err error) string {
+	var e *py.Exception
+	switch x := err.(type) {
+	case *py.Exception:
+		e = x
+	case py.ExceptionInfo:
+		e, _ = x.Value.(*py.Exception)
+	case *py.ExceptionInfo:
+		if x != nil {
+			e, _ = x.Value.(*py.Exception)
+		}
+	}
+	if e == nil {
+		return "ERR:" + errClass(err) + ":" + fmt.Sprint(err)
+	}
+	var b strings.Builder
+	fmt.Fprintf(&b, "ERR:%s args=", e.Type().Name)
+	if s, rerr := py.ReprAsString(e.Args); rerr == nil {
+		b.WriteString(s)
+	}
+	keys := make([]string, 0, len(e.Dict))
+	for k := range e.Dict {
+		keys = append(keys, k)
+	}
+	sort.Strings(keys)
+	for _, k := range keys {
+		s, rerr := py.ReprAsString(e.Dict[k])
+		if rerr != nil {
+			s = "<repr error>"
+		}
+		fmt.Fprintf(&b, " %s=%s", k, s)
+	}
+	return b.String()
+}
+
+// errIdentity is the address of the exception object a failed compilation returned (0 if none)
+func errIdentity(err error) *py.Exception {
+	switch x := err.(type) {
+	case *py.Exception:
+		return x
+	case py.ExceptionInfo:
+		e, _ := x.Value.(*py.Exception)
+		return e
+	case *py.ExceptionInfo:
+		if x != nil {
+			e, _ := x.Value.(*py.Exception)
+			return e
+		}
+	}
+	return nil
+}
+
+// heldResult compiles src under its own file name and keeps the RESULT OBJECT (code or error) together
+// with its dump at that moment: a later compilation must not be able to change what this one returned
+type heldResult struct {
+	code *py.Code
+	err  error
+	dump string
+}
+
+func (h *heldResult) redump() (out string) {
+	defer func() {
+		if r := recover(); r != nil {
+			out = "PANIC:" + strings.ReplaceAll(fmt.Sprint(r), "\n", " ")
+		}
+	}()
+	if h.err != nil {
+		return errDump(h.err)
+	}
+	if h.code == nil {
+		return "nil"
+	}
+	var b strings.Builder
+	dumpCode(h.code, &b)
+	return b.String()
+}
+
+func compileHeld(src, file string) (h *heldResult) {
+	h = &heldResult{}
+	defer func() {
+		if r := recover(); r != nil {
+			h.dump = "PANIC:" + strings.ReplaceAll(fmt.Sprint(r), "\n", " ")
+		}
+	}()
+	h.code, h.err = py.Compile(src, file, py.ExecMode, 0, true)
+	h.dump = h.redump()
+	return h
 }
 
 // c18Dump prints one digest line per source (compared across processes)
@@ -98,8 +190,25 @@ func c18Main(args []string) int {
 		b, _ := json.Marshal(c18Out{i, msg})
 		out.Write(b)
 		out.WriteByte('\n')
+		out.Flush() // a later phase may abort the process (concurrent map writes): what was seen so far must get out
 	}
 	bad := map[int]bool{}
+	// results held across everything that follows: each source compiled once under its own file name,
+	// the returned object kept; re-dumped at the end
+	held := make([]*heldResult, len(srcs))
+	for i, s := range srcs {
+		held[i] = compileHeld(s, fmt.Sprintf("<held-%d>", i))
+	}
+	heldErr := map[*py.Exception]int{}
+	for i, h := range held {
+		if e := errIdentity(h.err); e != nil {
+			if j, dup := heldErr[e]; dup && !bad[i] {
+				bad[i] = true
+				report(i, fmt.Sprintf("failed compilations %d and %d returned the very same exception object: %.200s", j, i, h.redump()))
+			}
+			heldErr[e] = i
+		}
+	}
 	// sequential repetition, interleaved with the neighbours
 	for i, s := range srcs {
 		for k := 0; k < reps; k++ {
@@ -133,6 +242,39 @@ func c18Main(args []string) int {
 		}(g)
 	}
 	wg.Wait()
+	// concurrent failing compilations under distinct file names: each must report its own location
+	var wg2 sync.WaitGroup
+	for g := 0; g < 16; g++ {
+		wg2.Add(1)
+		go func(g int) {
+			defer wg2.Done()
+			for i, s := range srcs {
+				if held[i].err == nil || i%16 != g {
+					continue
+				}
+				for k := 0; k < 4; k++ {
+					file := fmt.Sprintf("<held-%d>", i)
+					h := compileHeld(s, file)
+					if h.dump != held[i].dump {
+						mu.Lock()
+						if !bad[i] {
+							bad[i] = true
+							report(i, fmt.Sprintf("concurrent failing compile differs: %.300s  VS  %.300s", h.dump, held[i].dump))
+						}
+						mu.Unlock()
+					}
+				}
+			}
+		}(g)
+	}
+	wg2.Wait()
+	// nothing a later compilation did may have changed what an earlier one returned
+	for i, h := range held {
+		if d := h.redump(); d != h.dump && !bad[i] {
+			bad[i] = true
+			report(i, fmt.Sprintf("result held since the first compilation changed afterwards: was %.300s  NOW  %.300s", h.dump, d))
+		}
+	}
 	for i := range srcs {
 		if !bad[i] {
 			report(i, "same")
